@@ -54,7 +54,7 @@ class Prop:
             "up to 12 nodes; each x key_map in {default, off, custom} x value_map in {default, off, custom, custom-without-kind} x "
             "mapper style {none, callback, derived class}.  WRITER cases: the text written by Tree.save is parsed and compared with the "
             "model's save_doc and with the declarative layout_doc; oracle = independent Python encoder of the documented layout. "
-            "READER cases: documents produced by that independent encoder (never by save) are loaded by the implementation; oracle = "
+            "READER cases: documents produced by that independent encoder (never by save; object members in random order for half of them) are loaded by the implementation; oracle = "
             "iso(source, loaded) + file meta.  The 4 literal documents of docs/sphinx/ug_serialize.rst; malformed / foreign headers. "
             "non-trivial = the document has a clone reference, a kind-differing clone, a shortened key or value")
     exhaustive_note = "all forest shapes <= N nodes (N=4 quick) with sampled labelings/options"
@@ -118,7 +118,7 @@ class Prop:
                 o = dict(td, km=rng.choice(KMS), vm=rng.choice(VMS), mapper=ms,
                          meta=rng.choice([None, None, {"foo": "bar"}, {"str": "s", "t": [1], "kind": {"data_id": 0}}, {"n": 1, "l": [1, "x", None, True], "d": {"a": {}}}]))
                 yield dict(o, kind="save")
-                yield dict(o, kind="load")
+                yield dict(o, kind="load", shuffle=rng.random() < 0.5)
             if ms != "derived" and rng.random() < 0.25:
                 # options outside opts_ok (short names clashing with entry keys, value lists that do not cover):
                 # no oracle, the model must reproduce what the implementation does (errors included)
@@ -205,6 +205,16 @@ class Prop:
         except Exception:
             return Case(desc=desc, coq_input="CLoad (LE CPlain MNone [] []) JNull", impl_obs=[1, 9], nontrivial=False,
                         key="nolayout", stats=dict(kind="nolayout"))
+        if desc.get("shuffle"):
+            # JSON objects are unordered: another producer may emit the members in any order
+            import random
+            r = random.Random(H.digest(desc))
+
+            def shuf(d):
+                items = list(d.items())
+                r.shuffle(items)
+                return dict(items)
+            doc = shuf({"meta": shuf(doc["meta"]), "nodes": [[p, shuf(e) if isinstance(e, dict) else e] for p, e in doc["nodes"]]})
         text = json.dumps(doc)
         doc = json.loads(text)     # what a reader sees (tuples are lists ...)
         t2, obs, hashes, meta = self.load_obs(cls, text, lkw)
